@@ -173,7 +173,8 @@ CHECKS = {
              "content entry. (b) case = world + 1-3 rounds of unconfirmed blocks x variant kinds (quick: 3 kinds per block, "
              "thorough: all 21); non-trivial item = (variant kind, block type) accepted by the follower's pool",
         assumptions=HIST_ASSUME,
-        jobs=[dict(test="TestC13Codec", quick=T(2, 10000), thorough=T(8, 40000, 0, 3000)),
+        jobs=[dict(test="TestC13Calldata", quick=T(2, 25), thorough=T(4, 300, 0, 3000)),
+              dict(test="TestC13Codec", quick=T(2, 10000), thorough=T(8, 40000, 0, 3000)),
               dict(test="TestC13Variants", quick=T(6, 20), thorough=T(8, 120, 0, 3000)),
               F("FuzzC13Proto", 90), F("FuzzC13Rlp", 90), F("FuzzC13Json", 90)],
     ),
